@@ -36,7 +36,7 @@ def search(ctx, deep): return chk.search(ctx, deep, ID)
 def replay(ctx, data): return chk.replay(ctx, data, ID)
 
 
-LEVEL_TEXT = ("Exploration plus partial proof, Stage 1 schema space. EXPLORED on every run: generated histories (creates, updates, deletes, reference and collection changes, flushes, commits, rollbacks, new sessions, ~15 % malformed ops) run on real Pony + SQLite; after every commit / rollback / db_session exit the rows read through a separate connection must equal the committed copy of an independent logical reference state (tools/session_spec.py), and objects that have to be saved must be queued. PROVED (Coq, every schema, every state / history of the executable session model): only commit / leaving the db_session change the committed database - every other operation, incl. rollback, failing operations and reads with their auto-flush, leaves it alone; a failing commit publishes nothing and the next session starts from the last commit; rollback discards database changes and the whole cache; what later sessions see after a rollback depends on the committed database only; a successful commit publishes exactly the flushed transaction; a flush that succeeds leaves no object with status created / modified / marked_to_delete, provided every such object was queued at its _save_pos_; that premise - the queue invariant: pending objects have a _save_pos_, the slot there holds them, only pending objects have one - is proved for EVERY history that reached no dirty site (every function of the model; the dirty sites are the known findings queue-not-queued@...), so in a clean history every successful flush saves every object the program created, changed or deleted. NOT proved: that the flushed transaction holds exactly the program's objects, values and links (no simulation proof between the session model and the reference state). Two defects are refuted by model witnesses (auto-generated id clash commits an orphan row; an assignment to a seed object is lost), a third (failed Entity.set leaves a created object out of the save queue: it is never inserted) is found on the implementation only, because the model stops at that dirty site.")
+LEVEL_TEXT = ("Exploration plus partial proof, Stage 1 schema space. EXPLORED on every run: generated histories (creates, updates, deletes, reference and collection changes, flushes, commits, rollbacks, new sessions, ~15 % malformed ops) run on real Pony + SQLite; after every commit / rollback / db_session exit the rows read through a separate connection must equal the committed copy of an independent logical reference state (tools/session_spec.py), and objects that have to be saved must be queued. PROVED (Coq, every schema, every state / history of the executable session model): only commit / leaving the db_session change the committed database - every other operation, incl. rollback, failing operations and reads with their auto-flush, leaves it alone; a failing commit publishes nothing and the next session starts from the last commit; rollback discards database changes and the whole cache; what later sessions see after a rollback depends on the committed database only; a successful commit publishes exactly the flushed transaction; a flush that succeeds leaves no object with status created / modified / marked_to_delete, provided every such object was queued at its _save_pos_; that premise - the queue invariant: pending objects have a _save_pos_, the slot there holds them, only pending objects have one - is proved for EVERY history that reached no dirty site (every function of the model; the dirty sites are the known findings queue-not-queued@...), so in a clean history every successful flush saves every object the program created, changed or deleted. PROVED additionally for Stage 1 schemas WITHOUT Required references only (no ON DELETE CASCADE; C09_cache_database_coherence_except_known, Proofs/SessionCoh.v): cache/database coherence for scalar attributes is an invariant of every history that reached no dirty site - for the object the primary-key index names, dbvals mirror the row of the transaction's database, every value the program did not write in this transaction is the row's value, a loaded/inserted/updated object has no written bit, every non-seed object has its row; both databases keep key constraints and one column per attribute in EVERY history - and from it the first piece of the simulation, C09_committed_scalars_except_known: after a successful commit in a clean history whose transaction had something to save, for every object the program did not delete (and that is not a mere seed) the committed row exists and holds exactly the object's current scalar (int/str) attribute values (C09_committed_scalars_settled_except_known: the same without the 'something to save' premise for objects whose status is loaded/inserted/updated). Stage covered by each theorem: all of them Stage 1 (one-to-many relationships only; no many-to-many, one-to-one, composite keys, inheritance); the transaction-structure and queue theorems every Stage 1 schema, the coherence theorems Stage 1 schemas without Required references. NOT proved: that reference columns hold the referred object's key and collections are complete, anything for schemas with Required references (cascade delete), that the committed database holds no other rows than the program's objects (no full simulation proof between the session model and the reference state). Two defects are refuted by model witnesses (auto-generated id clash commits an orphan row; an assignment to a seed object is lost), a third (failed Entity.set leaves a created object out of the save queue: it is never inserted) is found on the implementation only, because the model stops at that dirty site.")
 LEVEL_NOTE = ('Trusted: the reference state (small, but hand-written; it trusts which operations raised), the fuzzer harness, SQLite; for the theorems the Coq kernel and the hand-written session model tied by differential runs. Many-to-many link rows, composite keys, inheritance are outside the generator.')
 TECHNIQUE = 'exploration of generated operation histories on real Pony+SQLite against a logical reference state (property oracle, ddmin shrinking); Coq theorems over the executable session model for the transaction structure / read-your-own-write; vm_compute correspondence model vs implementation'
 DESIGN_REF = 'DESIGN.md section 5, C09 and Appendix A'
